@@ -16,7 +16,8 @@ SPEC3 = {
 
 
 def root_res(n, locs, limit=12, stop=()):
-    """resolved id of the local an expression chain starts from, chasing single-assignment lets"""
+    """resolved id of the local an expression chain starts from, chasing single-assignment lets as long as
+    their initialiser is itself a chain rooted in a local"""
     while limit > 0:
         limit -= 1
         n = peel(n)
@@ -25,8 +26,8 @@ def root_res(n, locs, limit=12, stop=()):
             if n.get("rk") != "Local":
                 return None
             if locs is not None and n["res"] in locs.defs and n["res"] not in stop:
-                n = locs.defs[n["res"]]
-                continue
+                r = root_res(locs.defs[n["res"]], locs, limit, stop)
+                return r if r is not None else n["res"]
             return n["res"]
         if k == "MCall":
             n = n["recv"]
